@@ -306,41 +306,59 @@ def run_case(case, res):
         # operands; term identity where the implementation dequantizes, otherwise finiteness (BIT) and a replayed tolerance
         qa_t, qb_t = wq.qt(case["act"]), wq.qt(case["w"])
         both_int = case["act"] == "qint8" and case["w"] == "qint8"
+        def axscale(shape, axis):
+            if axis is None:
+                return (torch.rand(()) * 0.05 + 0.01).to(dt)
+            sh = [1] * len(shape)
+            sh[axis] = shape[axis]
+            return (torch.rand(sh) * 0.05 + 0.01).to(dt)
+
+        combos = []
         for opname, shapes in (("mm", ((2, 3), (3, 2))), ("matmul", ((2, 3), (3, 2))), ("bmm", ((1, 2, 3), (1, 3, 2)))) + ((("mm", ((24, 8), (8, 8))),) if both_int else ()):
-            da, sa = _act(case["act"], shapes[0], dt)
-            db, sb = _act(case["w"], shapes[1], dt)
+            combos.append((opname, shapes, None, None))
+            if opname != "matmul":
+                # per-axis operands (scales along the first or last axis of either operand, incl. along the contracted dimension)
+                for axa, axb in ((0, None), (-1, None), (None, 0), (None, -1), (0, -1), (-1, 0)):
+                    combos.append((opname, shapes, axa, axb))
+        if both_int:
+            combos += [("mm", ((24, 24), (24, 8)), None, 0), ("mm", ((24, 8), (8, 8)), -1, None)]  # dims coincide: a mis-broadcast is silent
+        for opname, shapes, axa, axb in combos:
+            da, _ = _act(case["act"], shapes[0], dt)
+            db, _ = _act(case["w"], shapes[1], dt)
+            sa, sb = axscale(shapes[0], axa), axscale(shapes[1], axb)
             with Session(res) as m:
                 A, B = m.symbolic(da, "a"), m.symbolic(db, "b")
                 SA, SB = m.symbolic(sa, "sa"), m.symbolic(sb, "sb")
-                qa = QBytesTensor(qa_t, None, da.size(), da.stride(), da, sa)
-                qb = QBytesTensor(qb_t, None, db.size(), db.stride(), db, sb)
+                qa = QBytesTensor(qa_t, axa, da.size(), da.stride(), da, sa)
+                qb = QBytesTensor(qb_t, axb, db.size(), db.stride(), db, sb)
                 fn = {"mm": torch.mm, "matmul": torch.matmul, "bmm": torch.bmm}[opname]
                 try:
                     out = fn(qa, qb)
                 except Exception as e:  # noqa
-                    res.side_ok("mm-dispatch-runs", False, f"{opname} {case['act']} x {case['w']}: {type(e).__name__}: {e}")
+                    res.side_ok("mm-dispatch-runs", False, f"{opname} {case['act']}{shapes[0]} axis={axa} x {case['w']}{shapes[1]} axis={axb}: {type(e).__name__}: {e}")
                     res.side[-1]["replayed"] = True
-                    res.candidate("mm-dispatch", "side", dict(kind="mm-dispatch", op=opname, dtype=case["dtype"], qa=case["act"], qb=case["w"], a=api.enc_tensor(da.float() if da.dtype.is_floating_point else da), b=api.enc_tensor(db.float() if db.dtype.is_floating_point else db), sa=api.enc_tensor(sa), sb=api.enc_tensor(sb)), exact=True)
+                    res.candidate("mm-dispatch", "side", dict(kind="mm-dispatch", op=opname, dtype=case["dtype"], qa=case["act"], qb=case["w"], axa=axa, axb=axb, a=api.enc_tensor(da.float() if da.dtype.is_floating_point else da), b=api.enc_tensor(db.float() if db.dtype.is_floating_point else db), sa=api.enc_tensor(sa), sb=api.enc_tensor(sb)), exact=True)
                     continue
                 ref = fn(qa.dequantize(), qb.dequantize())
                 O, R = m.read(out), m.read(ref)
                 R2 = R
-                if both_int:
+                if both_int and axa in (None, 0) and axb in (None, -1):
                     # the integer form whose accuracy the accuracy-int clause bounds: exact contraction, float32 scale product, one cast
                     R2 = m.read((fn(da.to(torch.float32), db.to(torch.float32)) * (sa * sb).to(torch.float32)).to(dt))
-            cfg = f"{opname} {case['act']}{shapes[0]} x {case['w']}{shapes[1]}"
+            cfg = f"{opname} {case['act']}{shapes[0]} axis={axa} x {case['w']}{shapes[1]} axis={axb}"
             res.side_ok("mm-dispatch-shape-dtype", tuple(out.shape) == tuple(ref.shape) and out.dtype == ref.dtype, cfg)
             if same(O, R) or same(O, R2):
                 res.query("mm-equals-dequantized-product", "ALG", "unsat", 0.0, sub=cfg)
                 continue
-            enc = dict(kind="mm-dispatch", op=opname, dtype=case["dtype"], qa=case["act"], qb=case["w"], a=api.enc_tensor(da.float() if da.dtype.is_floating_point else da), b=api.enc_tensor(db.float() if db.dtype.is_floating_point else db), sa=api.enc_tensor(sa), sb=api.enc_tensor(sb))
+            enc = dict(kind="mm-dispatch", op=opname, dtype=case["dtype"], qa=case["act"], qb=case["w"], axa=axa, axb=axb, a=api.enc_tensor(da.float() if da.dtype.is_floating_point else da), b=api.enc_tensor(db.float() if db.dtype.is_floating_point else db), sa=api.enc_tensor(sa), sb=api.enc_tensor(sb))
             res.candidate("region-witness:mm-tolerance", "ALG", enc)
             if dt in (torch.float16, torch.bfloat16) and not both_int:
                 b_ = bit.Bit(m.ctx)
                 pre = [fin(e) for e in (b_.tr(t) for t in list(A.reshape(-1)) + list(B.reshape(-1))) if z3.is_fp(e)]
                 for s_ in (SA, SB):
-                    e_ = b_.tr(s_.reshape(-1)[0])
-                    pre += [z3.fpGT(e_, z3.FPVal(2.0**-10, e_.sort())), z3.fpLT(e_, z3.FPVal(1.0, e_.sort()))]
+                    for st_ in s_.reshape(-1):
+                        e_ = b_.tr(st_)
+                        pre += [z3.fpGT(e_, z3.FPVal(2.0**-10, e_.sort())), z3.fpLT(e_, z3.FPVal(1.0, e_.sort()))]
                 goal = [z3.And(*[fin(b_.tr(t)) for t in R.reshape(-1)]), z3.Or(*[z3.Not(fin(b_.tr(t))) for t in O.reshape(-1)])]
                 v, secs, mdl = api.solve(list(b_.side) + pre + goal, 120)  # side (float8 grid membership) is complete only after every translation
                 res.query("mm-finite-when-dequantized-product-is", "BIT", v, secs, sub=cfg)
@@ -481,8 +499,8 @@ def replay(rec):
         qa_t, qb_t = wq.qt(inp["qa"]), wq.qt(inp["qb"])
         da, db = api.dec_tensor(inp["a"]).to(qa_t.dtype), api.dec_tensor(inp["b"]).to(qb_t.dtype)
         sa, sb = api.dec_tensor(inp["sa"]), api.dec_tensor(inp["sb"])
-        qa = QBytesTensor(qa_t, None, da.size(), da.stride(), da, sa)
-        qb = QBytesTensor(qb_t, None, db.size(), db.stride(), db, sb)
+        qa = QBytesTensor(qa_t, inp.get("axa"), da.size(), da.stride(), da, sa)
+        qb = QBytesTensor(qb_t, inp.get("axb"), db.size(), db.stride(), db, sb)
         fn = {"mm": torch.mm, "matmul": torch.matmul, "bmm": torch.bmm}[inp["op"]]
         try:
             out = fn(qa, qb).double()
